@@ -250,6 +250,14 @@ def scal_op(op, a, b):
                 return xa.pow(c.re)
             return mk_fn("pow", [xa, xb], "pos" if _pos_x(xa) else "real")
         if op == "//":
+            cb = xb.as_int()
+            if cb is not None and cb > 1:
+                # ceiling division idiom: (a + c - 1) // c == ceil(a / c) for integer a and a positive integer constant c
+                from .libmodel import is_integer
+                a_ = xa - (cb - 1)
+                try:
+                    if is_integer(a_): return mk_fn("ceil", [a_ / xb])
+                except Exception: pass
             return mk_fn("floor", [xa / xb])
         if op == "%":
             return mk_fn("mod", [xa, xb])
@@ -430,6 +438,23 @@ def local_to_arr(L, st=None):
             else: b = val
             body = b if body is None else mk_pv(_cond_eq(X.var(rv), X.const(k), f"{rv}=={k}"), b, body)
         return Arr([(rv, L.shape[0]), (cv, Cn)], body)
+    if len(L.shape) == 2 and L.shape[1].as_int() is not None and all(r[0] != "opaque" and len(r) == 3 and len(r[0]) == 1 and len(r[1]) == 2 and r[1][1].as_int() is not None
+                                                                      and r[1][0].eq(X.var(r[0][0][0])) for r in L.stores):
+        # column-wise comprehension stores  a[r, c_k] = v_k(r)  for r over all rows (one loop filling a small number of columns)
+        Cn = L.shape[1].as_int()
+        cols = {}
+        for binders, sidx, val in L.stores:
+            (rv_, cnt), = binders
+            if not cnt.eq(L.shape[0]): return Opaque(f"store covers {cnt!r} of {L.shape[0]!r} rows of {L.name}")
+            cols[sidx[1].as_int() % Cn] = (rv_, val)
+        rv, cv = fresh("r"), fresh("c")
+        from .libmodel import _cond_eq
+        body = None
+        for k in range(Cn - 1, -1, -1):
+            if k in cols: b = subst_val(cols[k][1], {cols[k][0]: X.var(rv)})
+            else: b = L.fill if L.fill is not None else Opaque(f"column {k} of {L.name} never set")
+            body = b if body is None else mk_pv(_cond_eq(X.var(cv), X.const(k), f"{cv}=={k}"), b, body)
+        return Arr([(rv, L.shape[0]), (cv, L.shape[1])], body)
     if len(L.shape) == 1 and len(L.stores) > 1 and all(r[0] != "opaque" and len(r) == 3 and len(r[0]) == 1 and len(r[1]) == 1 for r in L.stores):
         # several block stores  a[lo_k : lo_k + n_k] = v_k(t)  with concrete offsets: element i takes the value of the last block containing it
         ok = True; blocks = []
